@@ -914,8 +914,8 @@ def SSI_mpe(
         for fj in tqdm(freq_ref):
             sel = np.nanargmin(np.abs(Fn_pol[:, order] - fj))
             fns_at_ord_ii = Fn_pol[:, order][sel]
-            check = np.isclose(fns_at_ord_ii, freq_ref, rtol=rtol)
-            if not check.any():
+            check = np.isclose(fns_at_ord_ii, fj, rtol=rtol)
+            if not np.any(check):
                 logger.warning("Could not find any values")
                 order_out = order
             else:
@@ -935,8 +935,8 @@ def SSI_mpe(
         for ii, fj in enumerate(tqdm(freq_ref)):
             sel = np.nanargmin(np.abs(Fn_pol[:, order[ii]] - fj))
             fns_at_ord_ii = Fn_pol[:, order[ii]][sel]
-            check = np.isclose(fns_at_ord_ii, freq_ref, rtol=rtol)
-            if not check.any():
+            check = np.isclose(fns_at_ord_ii, fj, rtol=rtol)
+            if not np.any(check):
                 logger.warning("Could not find any values")
                 order_out[ii] = order[ii]
             else:
